@@ -184,6 +184,8 @@ RunDefers(ds, w) == IF ds = <<>> \/ Panicked(w) THEN w ELSE RunDefers(Tail(ds), 
 \*   rfunc     for v := range rt.Seq3 { Yield(v) }                                 (yields 1, 2, 3)
 \*   parenyield (Yield(a))                                                          (a parenthesised yield statement)
 \*   rparrdefer for _, v := range &uarr { defer r.E(id, v, 0) }                     (defer in a loop the rewriter leaves native)
+\*   rparrbrk / rparrcnt   for k, v := range &uarr { if r.T(id+1) { break | continue }; r.E(id+2, k, v) }   (no yield: left native)
+\*   elifinit  if r.T(id) { r.E(id+1, a, b) } else if Yield(a); r.T(id+2) { r.E(id+3, a, b) }
 \*   rtparam   for _, v := range ts { Yield(v) }   with ts of a type-parameter type ~[]int holding 10, 20, 30
 \* Negative controls, inside a closure nested in the generator (no yield inside; must be accepted):
 \*   clo-lbreak clo-goto clo-select clo-defer clo-rfunc clo-rparr clo-fall clo-selbrk
@@ -219,6 +221,9 @@ Desugar(s) ==
     [] s.u = "rtparam" -> <<UY(ULit(10)), UY(ULit(20)), UY(ULit(30))>>
     [] s.u = "parenyield" -> <<UY(UVar("a"))>>
     [] s.u = "rparrdefer" -> <<[k |-> "deferv", id |-> id, x |-> 10], [k |-> "deferv", id |-> id, x |-> 20], [k |-> "deferv", id |-> id, x |-> 30]>>
+    [] s.u = "rparrbrk" -> <<URange("parray", id, <<UIf(id + 1, <<[k |-> "break"]>>, <<>>), [k |-> "effkv", id |-> id + 2]>>)>>
+    [] s.u = "rparrcnt" -> <<URange("parray", id, <<UIf(id + 1, <<[k |-> "continue"]>>, <<>>), [k |-> "effkv", id |-> id + 2]>>)>>
+    [] s.u = "elifinit" -> <<UIf(id, <<UEff(id + 1)>>, <<UY(UVar("a")), UIf(id + 2, <<UEff(id + 3)>>, <<>>)>>)>>
     [] s.u = "lrange"  -> <<UIf(id, <<UY(ULit(10))>>, <<UEffX(id + 2, ULit(10))>>), UIf(id, <<UY(ULit(20))>>, <<UEffX(id + 2, ULit(20))>>)>>
     [] s.u = "clo-lrange" -> <<UIf(id, <<UEffX(id + 1, ULit(10))>>, <<UEffX(id + 2, ULit(10))>>), UIf(id, <<UEffX(id + 1, ULit(20))>>, <<UEffX(id + 2, ULit(20))>>)>>
     [] s.u = "clo-selbrk" -> <<UIf(id, <<>>, <<UEffX(id + 1, ULit(7))>>)>>
@@ -231,7 +236,7 @@ Desugar(s) ==
     [] s.u = "clo-loopvar" -> <<UEffX(id, ULit(0)), UEffX(id, ULit(1)), UEffX(id, ULit(2))>>
     [] s.u = "clo-fall"   -> <<[k |-> "switch", init |-> None, form |-> "tag", c |-> UT(id),
                                 cases |-> <<UCase("t", <<UEff(id + 1)>>, TRUE), UCase("d", <<UEff(id + 2)>>, FALSE)>>]>>
-UnsupYields(u) == u \in {"parenyield", "lbreak", "lcont", "goto", "select", "fallyield", "ifinit", "rparr", "rfunc", "rtparam", "lrange"}
+UnsupYields(u) == u \in {"elifinit", "parenyield", "lbreak", "lcont", "goto", "select", "fallyield", "ifinit", "rparr", "rfunc", "rtparam", "lrange"}
 
 \* ---------------------------------------------------------------- the interpreter
 \* Run(i, w): run coroutine i to its next yield / end / panic:  [st, w]
